@@ -276,11 +276,17 @@ type FanSpec struct {
 	Inner   bool   // make two of the children inner nodes
 	Tail    string // suffix after the branch byte
 	Fill    int    // number of filler siblings for the C12 epilogue
+	Stem    bool   // the path itself is a key too (its terminator becomes the 0x00 child of the big node)
 }
 
 func FanUniverse(fs FanSpec) AlphaSpec {
 	total := fs.Hold + fs.Extra
-	all := spreadBytes(total+fs.Absent, nil)
+	var avoid map[byte]bool
+	if fs.Stem {
+		// path+"\x00" next to the stored stem key is the known finding D9 (terminator scheme): keep it out
+		avoid = map[byte]bool{0x00: true}
+	}
+	all := spreadBytes(total+fs.Absent, avoid)
 	// absent ones: spread evenly among the others, to include boundary bytes
 	var setup, extra, absent []byte
 	for i, b := range all {
@@ -353,7 +359,7 @@ func FanUniverse(fs FanSpec) AlphaSpec {
 		sp.Free = append(sp.Free, mk(b))
 	}
 	// probes: a sibling byte never stored, the bare path, the path cut short
-	never := spreadBytes(total+fs.Absent+2, nil)
+	never := spreadBytes(total+fs.Absent+2, avoid)
 	for _, b := range never {
 		used := false
 		for _, m := range all {
@@ -368,6 +374,17 @@ func FanUniverse(fs FanSpec) AlphaSpec {
 	}
 	if fs.Path != "" {
 		sp.Probes = append(sp.Probes, fs.Path, fs.Path[:len(fs.Path)-1])
+	}
+	if fs.Stem && fs.Path != "" {
+		// the stem key is free: present in some states, absent in others
+		sp.Free = append(sp.Free, fs.Path)
+		var pr []string
+		for _, p := range sp.Probes {
+			if p != fs.Path {
+				pr = append(pr, p)
+			}
+		}
+		sp.Probes = pr
 	}
 	if fs.Fill > 0 {
 		fb := spreadBytes(fs.Fill, nil)
@@ -456,6 +473,30 @@ func AlphaFamilies(tier string) []AlphaSpec {
 			}
 			out = append(out, FanUniverse(g))
 		}
+	}
+	// a stored key that is a proper prefix of all siblings: its terminator is the 0x00 child of the big node
+	for _, f := range []FanSpec{
+		{Name: "STEM16@15", Hold: 15, Present: 2, Absent: 2, Path: "stem", Stem: true},
+		{Name: "STEM48@14", Hold: 14, Extra: 3, Present: 2, Absent: 2, Path: "stem", Stem: true},
+		{Name: "STEM48@46", Hold: 46, Present: 2, Absent: 2, Path: P(12), Stem: true},
+	} {
+		if tier != "thorough" && f.Hold > 16 && f.Extra == 0 {
+			continue
+		}
+		out = append(out, FanUniverse(f))
+	}
+	// nested big nodes: a node16 below a node48 below a node4, free keys on every level
+	{
+		var setup []string
+		for i := 0; i < 18; i++ {
+			setup = append(setup, "n"+string([]byte{byte(0x20 + i*7)}))
+		}
+		for i := 0; i < 6; i++ {
+			setup = append(setup, "n"+string([]byte{0x20})+"m"+string([]byte{byte(0x30 + i*9)}))
+		}
+		out = append(out, AlphaSpec{Name: "NEST", Setup: setup,
+			Free:   []string{"n" + string([]byte{0x20}) + "m" + string([]byte{0x30}), "n" + string([]byte{0x20}) + "m" + string([]byte{0xf0}), "n" + string([]byte{0x27}), "n" + string([]byte{0xfe}), "z", "n"},
+			Probes: []string{"n" + string([]byte{0x20}) + "m", "n" + string([]byte{0x20})}})
 	}
 	if tier == "thorough" {
 		for _, f := range fans {
